@@ -801,6 +801,11 @@ class BinaryOp(Expr):
         if self.op == Operator.ADD:
             return left + right
 
+        # strings are ordered by the code page 437 codes of their
+        # characters (as the cmp instruction does at run time)
+        left = left.encode('cp437', errors='replace')
+        right = right.encode('cp437', errors='replace')
+
         def qbool(x):
             return -1 if x else 0
 
